@@ -35,8 +35,10 @@ type CaseResult struct {
 type Batch struct {
 	Dir     string
 	Pkgs    []*Pkg
-	Results map[string]map[string]CaseResult // pkg -> case -> result
+	Results map[string]map[string]CaseResult // pkg -> case -> result (of the last run)
 	Cases   map[string][]string              // pkg -> case names in source order
+	// Multi counts every value printed for a case over all runs (C03: outcome sets)
+	Multi map[string]map[string]map[string]int
 }
 
 const canonSrc = `//go:build !goose
@@ -46,11 +48,20 @@ package canon
 
 import (
 	"fmt"
+	"os"
 	"reflect"
 	"sort"
 	"strconv"
 	"strings"
 )
+
+func repeat() int {
+	n, err := strconv.Atoi(os.Getenv("VB_REPEAT"))
+	if err != nil || n < 1 {
+		return 1
+	}
+	return n
+}
 
 func TypeDesc(t reflect.Type) string {
 	switch t.Kind() {
@@ -125,8 +136,14 @@ func Value(v reflect.Value, depth int) string {
 	return "?"
 }
 
-// Emit prints one case: pkg, name, and the tuple of results.
+// Emit prints one case: pkg, name, and the tuple of results (VB_REPEAT times).
 func Emit(pkg, name string, f func() []interface{}) {
+	for i := repeat(); i > 0; i-- {
+		emit1(pkg, name, f)
+	}
+}
+
+func emit1(pkg, name string, f func() []interface{}) {
 	var res []interface{}
 	panicked := false
 	func() {
@@ -202,7 +219,7 @@ func caseFuncs(src string, prefixes []string) (names []string, arity map[string]
 
 // Write lays the batch module out on disk.
 func Write(dir string, pkgs []*Pkg, casePrefixes []string) (*Batch, error) {
-	b := &Batch{Dir: dir, Pkgs: pkgs, Results: map[string]map[string]CaseResult{}, Cases: map[string][]string{}}
+	b := &Batch{Dir: dir, Pkgs: pkgs, Results: map[string]map[string]CaseResult{}, Cases: map[string][]string{}, Multi: map[string]map[string]map[string]int{}}
 	gomod := fmt.Sprintf("module %s\n\ngo 1.22\n\nrequire github.com/goose-lang/goose v0.0.0\n\nreplace github.com/goose-lang/goose => %s\n", ModPath, core.RepoDir)
 	if err := core.WriteFile(filepath.Join(dir, "go.mod"), gomod); err != nil {
 		return nil, err
@@ -273,24 +290,43 @@ func Write(dir string, pkgs []*Pkg, casePrefixes []string) (*Batch, error) {
 
 // RunGo builds the batch and runs every case natively. extraBuild may hold e.g. "-race".
 func (b *Batch) RunGo(timeout time.Duration, env []string, extraBuild ...string) (buildErr string, runErr string) {
-	bin := filepath.Join(b.Dir, "run.bin")
+	bin, berr := b.BuildGo(extraBuild...)
+	if berr != "" {
+		return berr, ""
+	}
+	_, rerr := b.RunBin(bin, timeout, env)
+	return "", rerr
+}
+
+// BuildGo builds the batch's main package.
+func (b *Batch) BuildGo(extraBuild ...string) (bin string, buildErr string) {
+	name := "run.bin"
+	for _, e := range extraBuild {
+		name += e
+	}
+	bin = filepath.Join(b.Dir, name)
 	args := append([]string{"build"}, extraBuild...)
 	args = append(args, "-o", bin, ".")
 	res := core.Exec(b.Dir, core.GoEnv(), 10*time.Minute, "", "go", args...)
 	if res.Code != 0 {
-		return res.Stdout + res.Stderr, ""
+		return "", res.Stdout + res.Stderr
 	}
+	return bin, ""
+}
+
+// RunBin runs a built batch binary, accumulating results; returns stderr.
+func (b *Batch) RunBin(bin string, timeout time.Duration, env []string) (stderr string, runErr string) {
 	e := core.GoEnv()
 	e = append(e, env...)
 	r := core.Exec(b.Dir, e, timeout, "", bin)
 	b.parse(r.Stdout)
 	if r.TimedOut {
-		return "", "timeout"
+		return r.Stderr, "timeout"
 	}
 	if r.Code != 0 {
-		return "", fmt.Sprintf("exit %d: %s", r.Code, tail(r.Stderr, 2000))
+		return r.Stderr, fmt.Sprintf("exit %d: %s", r.Code, tail(r.Stderr, 2000))
 	}
-	return "", ""
+	return r.Stderr, ""
 }
 
 func tail(s string, n int) string {
@@ -315,6 +351,17 @@ func (b *Batch) parse(out string) {
 			m[f[1]] = CaseResult{Panicked: true}
 		} else {
 			m[f[1]] = CaseResult{Type: f[2], Value: f[3]}
+		}
+		if b.Multi[f[0]] == nil {
+			b.Multi[f[0]] = map[string]map[string]int{}
+		}
+		if b.Multi[f[0]][f[1]] == nil {
+			b.Multi[f[0]][f[1]] = map[string]int{}
+		}
+		if f[2] == "PANIC" {
+			b.Multi[f[0]][f[1]]["PANIC"]++
+		} else {
+			b.Multi[f[0]][f[1]][f[3]]++
 		}
 	}
 }
